@@ -317,9 +317,24 @@ func (a *analyzer) call(f *ssa.Function, ins ssa.Instruction, cc *ssa.CallCommon
 		if b.Name() == "close" {
 			a.event(f, ins, "chan-close:"+a.p.Desc(cc.Args[0]), st)
 		}
+		if b.Name() == "copy" && len(cc.Args) == 2 {
+			// copy(x.f[:], …) / copy((*x.p)[:], …): the bytes behind a shared field are overwritten
+			if sl, ok := cc.Args[0].(*ssa.Slice); ok {
+				a.accessVal(f, ins, sl.X, true, st)
+				a.access(f, ins, sl.X, true, st)
+			}
+		}
 		return st
 	}
 	if cal := cc.StaticCallee(); cal != nil {
+		// wiping helpers overwrite what their pointer argument points to: key.Zero(), zero.Bytes(x.buf) …
+		if pk := an.FuncPkg(cal); pk != nil && len(cc.Args) > 0 && (strings.HasSuffix(pk.Path(), "/zero") || cal.Name() == "Zero") {
+			a.accessVal(f, ins, cc.Args[0], true, st)
+			if sl, ok := cc.Args[0].(*ssa.Slice); ok {
+				a.accessVal(f, ins, sl.X, true, st)
+				a.access(f, ins, sl.X, true, st)
+			}
+		}
 		switch an.FuncKey(cal) {
 		case "(*sync.Mutex).Lock", "(*sync.RWMutex).Lock":
 			return a.acquire(f, ins, a.lockID(cc.Args[0]), 'W', st)
